@@ -1,5 +1,5 @@
 (* regenerated on every run by harness/cmd/translate (reconcile) from
-   core/task/manager.go (handleMessage, NewManager, doKillTasks) and core/task/scheduler.go *)
+   core/task/manager.go (handleMessage, NewManager, doKillTasks, updateTaskStatus) and core/task/scheduler.go *)
 From Verif Require Import Common.
 Open Scope N_scope.
 (* Mesos task states (numeric values of mesos.TaskState) for which a status update with reason
@@ -18,3 +18,10 @@ Definition kill_inactive : bool := true.
 (* the states in which Mesos considers a task alive (mesos.proto: non-terminal, reachable) *)
 Definition mesos_live_states : list N := [6; 0; 1; 8]. (* STAGING STARTING RUNNING KILLING *)
 Definition mesos_running : N := 1.
+Definition mesos_staging : N := 6.
+Definition mesos_starting : N := 0.
+Definition mesos_lost : N := 5.
+Definition mesos_failed : N := 3.
+(* updateTaskStatus: the Mesos states of a status update that make a roster task ACTIVE / INACTIVE *)
+Definition status_activating : list N := [1].
+Definition status_deactivating : list N := [2; 3; 4; 5; 7; 9].
